@@ -6,7 +6,11 @@
    modelled as three disjoint maps (id -> group, 8-byte height -> id, the two named keys): a group id
    that is 8 bytes long or equals "gcurrent"/"gcount" is outside the model (real ids are 32 bytes).
    uint64 wrap-around of count (2^64 groups) is outside the model.  json.Marshal/Unmarshal of a group
-   is the identity on the projection.  consensusHelper.CheckGroup is the caller's business (true). *)
+   is the identity on the projection.  consensusHelper.CheckGroup is the caller's business (true).
+   The sqlite file is separate from LevelDB; losing rows of it behind the node's back is an
+   environment event of the model ([DropIndex]) because refreshCache exists to repair exactly that.
+   fork_group.go: the fork's own scratch DB is the list of groups handed to [trigger_on_chain]
+   (heights consecutive from the ancestor's, as insertGroup stores them). *)
 From Coq Require Import List NArith Bool.
 Import ListNotations.
 Local Open Scope N_scope.
@@ -44,6 +48,9 @@ Definition sq_lookup (q : list (id * N)) (i : id) : option N :=
   option_map snd (find (fun r => fst r =? i) q).
 (* select count( * ) *)
 Definition sq_count (q : list (id * N)) : N := N.of_nat (length q).
+(* rows lost outside the node (DeleteGroup-like loss of the rows of the given ids; all ids = an empty file) *)
+Definition drop_rows (ids : list id) (q : list (id * N)) : list (id * N) :=
+  fold_left (fun q i => sq_del i q) ids q.
 
 (* ---- lookups ---- *)
 Definition get_by_id (s : state) (i : id) : option group := groups (st s) i.
@@ -128,6 +135,19 @@ Definition remove_from (fx : bool) (s : state) (anc : group) : state :=
   let top := chain_height s in
   rm_loop fx (N.to_nat (top - gheight anc)) top s.
 
+(* ---- groupChainFork.triggerOnChain (fork_group.go), first entry (fork.current = fork.header):
+        removeFromCommonAncestor(ancestor), then AddGroup of the fork's groups in height order until the
+        first refusal.  true = every fork group is on the chain ---- *)
+Fixpoint add_all (s : state) (gs : list group) : state * bool :=
+  match gs with
+  | [] => (s, true)
+  | g :: r => let '(s', c) := add_group s g in
+              if c =? 0 then add_all s' r else (s', false)
+  end.
+
+Definition trigger_on_chain (fx : bool) (s : state) (anc : group) (gs : list group) : state * bool :=
+  add_all (remove_from fx s anc) gs.
+
 (* ---- initGroupChain on a store (first start: empty store) ---- *)
 Fixpoint refresh_walk (fuel : nat) (gs : id -> option group) (g : group) (q : list (id * N))
   : option (list (id * N)) :=
@@ -176,10 +196,18 @@ Inductive op :=
 | Add (g : group)             (* GroupChain.AddGroup *)
 | RemoveLast                  (* remove(lastGroup) *)
 | RemoveFrom (h : N)          (* removeFromCommonAncestor(GetGroupByHeight h) *)
-| Restart.                    (* process exit; initGroupChain on the same files *)
+| Restart                     (* process exit; initGroupChain on the same files *)
+| ForkSwitch (h : N) (gs : list group)
+                              (* newGroupChainFork(GetGroupByHeight h), gs inserted, triggerOnChain *)
+| DropIndex (ids : list id).  (* environment: the sqlite rows of these ids are lost *)
 
 (* result codes: AddGroup as above; remove 0 = true, 1 = false; RemoveFrom 1 = no such ancestor;
-   Restart 98 = panic, 99 = no termination *)
+   Restart 98 = panic, 99 = no termination; ForkSwitch 0 = true, 2 = false, 1 = no such ancestor *)
+Definition set_sq (s : state) (q : list (id * N)) : state :=
+  let p := st s in
+  {| st := {| groups := groups p; idx := idx p; gcur := gcur p; gcnt := gcnt p; sq := q |};
+     count := count s; last := last s |}.
+
 Definition step (fx : bool) (genesis : group) (s : state) (o : op) : state * N :=
   match o with
   | Add g => add_group s g
@@ -193,6 +221,12 @@ Definition step (fx : bool) (genesis : group) (s : state) (o : op) : state * N :
                | BootPanic => (s, 98)
                | BootDiverge => (s, 99)
                end
+  | ForkSwitch h gs => match get_by_height s h with
+                       | None => (s, 1)
+                       | Some anc => let '(s', b) := trigger_on_chain fx s anc gs in
+                                     (s', if b then 0 else 2)
+                       end
+  | DropIndex ids => (set_sq s (drop_rows ids (sq (st s))), 0)
   end.
 
 Fixpoint run (fx : bool) (genesis : group) (s : state) (ops : list op) : state * list N :=
